@@ -201,6 +201,21 @@ func TestCheck(t *testing.T) {
 		if _, err := run.LoadReplay(cfg.Replay, &c); err != nil {
 			t.Fatal(err)
 		}
+		if c.G == -7 {
+			rec.Eval()
+			if msg := rollingCase(c.Slice, 6, 3); msg != "" {
+				rec.Fail("rolling", c, "", msg)
+			}
+			return
+		}
+		if c.Slice < 0 {
+			// fixed scenario number -1-Slice (no other parameters)
+			rec.Eval()
+			if msg := secondGenerationCase(-1 - c.Slice); msg != "" {
+				rec.Fail("generation", c, "", msg)
+			}
+			return
+		}
 		do(c)
 		return
 	}
@@ -215,7 +230,7 @@ func TestCheck(t *testing.T) {
 		S, L int
 		kind string
 	}
-	shapes := []shape{{4, 7, "random"}, {4, 8, "random"}, {4, 30, "random"}, {8, 24, "random"}, {8, 29, "random"}, {12, 40, "random"}, {16, 64, "random"}, {16, 70, "random"}, {64, 96, "random"}, {8, 40, "alpha"}, {4, 24, "zerotail"}, {8, 40, "crczero"}, {8, 37, "crczero"}, {16, 100, "crczero"}}
+	shapes := []shape{{4, 7, "random"}, {4, 8, "random"}, {4, 30, "random"}, {8, 24, "random"}, {8, 29, "random"}, {12, 40, "random"}, {16, 64, "random"}, {16, 70, "random"}, {64, 96, "random"}, {8, 40, "alpha"}, {4, 24, "zerotail"}, {8, 40, "crczero"}, {8, 37, "crczero"}, {16, 100, "crczero"}, {8, 40, "crcwindow"}, {16, 84, "crcwindow"}}
 	if cfg.Thorough() {
 		shapes = append(shapes, shape{4, 96, "random"}, shape{8, 200, "random"}, shape{12, 100, "random"}, shape{16, 400, "random"}, shape{64, 400, "random"}, shape{64, 333, "random"},
 			shape{16, 96, "alpha"}, shape{8, 64, "repeat"}, shape{16, 80, "slicezeros"}, shape{4, 41, "zeroshead"})
@@ -299,6 +314,34 @@ func TestCheck(t *testing.T) {
 	}
 	rec.SetExtra("enumeration", "every edit position 0..L x insertion/removal lengths for each (slice size, length, content kind) shape")
 
+	// the rolling CRC-32 of the slice search for window (= slice) sizes up to 2^20, thorough: 2^29 and 2^30 (bit counts beyond 32 bits)
+	wins := []int{4, 5, 8, 12, 64, 1000, 4096, 65536, 1 << 20, 1<<20 + 4}
+	if cfg.Thorough() {
+		wins = append(wins, 1<<24, 1<<29, 1<<29+4, 1<<30)
+	}
+	for wi, w := range wins {
+		if !cfg.Mine(7100 + wi) {
+			continue
+		}
+		rec.Eval()
+		rec.Class("rolling-crc-window")
+		extra := 40
+		if w >= 1<<24 {
+			extra = 6
+		}
+		if msg := rollingCase(w, extra, uint64(wi+1)); msg != "" {
+			rec.Fail("rolling", Case{Slice: w, G: -7}, "", msg)
+		}
+	}
+	for k := 0; k < 3; k++ {
+		if cfg.Mine(7000 + k) {
+			rec.Eval()
+			rec.Class("second-generation-with-the-same-set-id")
+			if msg := secondGenerationCase(k); msg != "" {
+				rec.Fail("generation", Case{Slice: -1 - k}, "", msg)
+			}
+		}
+	}
 	cfg.SetRapid(cfg.N(1000, 8000), 1)
 	rapid.Check(t, func(rt *rapid.T) {
 		S := rapid.SampledFrom([]int{4, 8, 12, 16, 64, 100}).Draw(rt, "S")
